@@ -130,7 +130,32 @@ int main(int argc, char **argv) {
     if (nt == 0 || tok[0][0] == '#' || !strcmp(tok[0], "def")) { puts("-"); fflush(stdout); continue; }
     const char *op = tok[0];
     alarm(20);
-    if (!strcmp(op, "reset")) {
+    if (!strcmp(op, "tok") && nt >= 3) {
+      /* tok <v6:0|1> <want> [hex of the string] : call _GD_Tokenise itself */
+      static DIRFILE *TD = NULL;
+      struct parser_state p;
+      size_t n = 0; unsigned char *b = unhex(nt >= 4 ? tok[3] : "", &n);
+      char *outstring = NULL; const char *pos = NULL; char *in_cols[MAX_IN_COLS + 1];
+      int want = atoi(tok[2]);
+      if (!TD) TD = gd_invalid_dirfile();
+      TD->error = 0; TD->suberror = 0; TD->flags &= ~GD_INVALID;
+      _GD_SimpleParserInit(TD, "tok", &p);
+      if (tok[1][0] == '0') { p.pedantic = 1; p.standards = 5; }
+      else { p.pedantic = 0; p.standards = GD_DIRFILE_STANDARDS_VERSION; }
+      if (want > MAX_IN_COLS) want = MAX_IN_COLS;
+      /* exactly-sized copy so ASan sees over-reads */
+      char *str = malloc(n + 1); memcpy(str, b, n); str[n] = 0;
+      int nc = _GD_Tokenise(TD, &p, str, &outstring, &pos, want, in_cols);
+      printf("tok n=%d e=%s pos=%ld t=", nc,
+          TD->error == 0 ? "ok" : (TD->suberror == GD_E_FORMAT_CHARACTER ? "character" :
+            (TD->suberror == GD_E_FORMAT_UNTERM ? "unterminated" : "other")), (long)(pos - str));
+      if (outstring) for (int i = 0; i < nc; i++) {
+        if (i) putchar(',');
+        for (const unsigned char *q = (const unsigned char *)in_cols[i]; *q; q++) printf("%02x", *q);
+      }
+      putchar('\n'); fflush(stdout);
+      free(outstring); free(str); free(b);
+    } else if (!strcmp(op, "reset")) {
       /* start a fresh dirfile directory */
       static int counter = 0;
       if (D) { gd_discard(D); D = NULL; }
